@@ -402,6 +402,16 @@ fn txenc_line(tx: &Transaction) -> (String, String) {
     (format!("txenc {}", crate::statefmt::tx_text(tx)), res)
 }
 
+/// `hdrenc <header>`: the bytes of `stdcode::serialize(header)`, the preimage of the header hash
+fn hdrenc_line(h: &Header) -> (String, String) {
+    let res = match silent(|| stdcode::serialize(h)) {
+        Ok(Ok(b)) => format!("bytes {}", crate::fmt::hxd(&b)),
+        Ok(Err(_)) => "err".to_string(),
+        Err(_) => "panic".to_string(),
+    };
+    (format!("hdrenc {}", crate::statefmt::header_text(h)), res)
+}
+
 fn some_len(r: &mut Rng, thorough: bool) -> usize {
     match r.below(12) {
         0 => 250,
@@ -509,6 +519,25 @@ pub fn stdcode_stream(r: &mut Rng, n: usize, thorough: bool, out: &mut Out) {
             sigs: (0..r.below(4)).map(|_| { let l = *r.pick(&[0usize, 1, 64, 64, 64, 250, 251]); r.bytes(l).into() }).collect(),
         };
         out.emit2(txlen_line(&tx));
+        // the preimage of a header hash
+        {
+            let hv = |r: &mut Rng| { let mut h = [0u8; 32]; h.copy_from_slice(&r.bytes(32)); tmelcrypt::HashVal(h) };
+            let nets = [NetID::Testnet, NetID::Custom02, NetID::Custom03, NetID::Custom04, NetID::Custom05, NetID::Custom06, NetID::Custom07, NetID::Custom08, NetID::Mainnet];
+            let hd = Header {
+                network: *r.pick(&nets),
+                previous: hv(r),
+                height: BlockHeight(edge_value(r) as u64),
+                history_hash: hv(r),
+                coins_hash: hv(r),
+                transactions_hash: if r.chance(1, 4) { tmelcrypt::HashVal([0u8; 32]) } else { hv(r) },
+                fee_pool: CoinValue(edge_value(r)),
+                fee_multiplier: edge_value(r),
+                dosc_speed: edge_value(r),
+                pools_hash: hv(r),
+                stakes_hash: hv(r),
+            };
+            out.emit2(hdrenc_line(&hd));
+        }
         // … and the bytes themselves, for transactions of moderate size
         if tx.inputs.len() + tx.outputs.len() < 40 {
             out.emit2(txenc_line(&tx));
